@@ -80,7 +80,7 @@ template<class T, class U> bool operator!=(const TrackAlloc<T>& a, const TrackAl
 struct ItemLedger {
   long long live = 0; uint64_t constructed = 0, destroyed = 0;
   std::vector<std::string> errors;
-  void error(const std::string& e) { if (errors.size() < 50) errors.push_back(e); }
+  void error(const std::string& e) { if (errors.size() < 50) errors.push_back(e); if (getenv("MC_ITEM_TRAP")) __builtin_trap(); /* debugging aid: stack trace at the misuse */ }
   void reset() { live = 0; constructed = destroyed = 0; errors.clear(); }
 };
 inline ItemLedger& items() { static ItemLedger l; return l; }
@@ -92,7 +92,8 @@ class Item {
 public:
   Item(int v): cookie_(LIVE), value_(v) { born(); }
   Item(const Item& o): cookie_(LIVE), value_(o.value_) { if (o.cookie_ != LIVE) items().error(o.cookie_ == MOVED ? "copy from moved-from item" : "copy from dead item"); born(); }
-  Item(Item&& o) noexcept : cookie_(LIVE), value_(o.value_) { if (o.cookie_ != LIVE) items().error(o.cookie_ == MOVED ? "move from moved-from item" : "move from dead item"); else o.cookie_ = MOVED; born(); }
+  // moving a moved-from item again is legal (valid but unspecified state, e.g. std::swap of two sketches one of which was moved from)
+  Item(Item&& o) noexcept : cookie_(o.cookie_ == LIVE ? LIVE : MOVED), value_(o.value_) { if (o.cookie_ != LIVE && o.cookie_ != MOVED) items().error("move from dead item"); else o.cookie_ = MOVED; born(); }
   Item& operator=(const Item& o) {
     if (cookie_ != LIVE && cookie_ != MOVED) items().error("assign to dead item");
     if (o.cookie_ != LIVE) items().error("assign from non-live item");
@@ -100,8 +101,9 @@ public:
   }
   Item& operator=(Item&& o) noexcept {
     if (cookie_ != LIVE && cookie_ != MOVED) items().error("move-assign to dead item");
-    if (o.cookie_ != LIVE) items().error("move-assign from non-live item");
-    value_ = o.value_; cookie_ = LIVE; if (&o != this) o.cookie_ = MOVED; return *this;
+    if (o.cookie_ != LIVE && o.cookie_ != MOVED) items().error("move-assign from dead item");
+    const uint32_t src = o.cookie_;
+    value_ = o.value_; if (&o != this) { cookie_ = src == LIVE ? LIVE : MOVED; o.cookie_ = MOVED; } return *this;
   }
   ~Item() {
     if (cookie_ != LIVE && cookie_ != MOVED) items().error("destroy of an item that is not live (double destroy or never constructed)");
